@@ -31,6 +31,7 @@ var pkgPool = []string{
 	"git::ssh://example.org/p3.git",
 	"https://example.org/dl/p4.tar.gz",
 	"git::https://example.com/p0.git?ref=v2",
+	"git::https://example.org/q0.git",
 }
 var rpkgPool = []string{"example.com/ns/r0/sys", "registry.terraform.io/ns/r1/sys", "example.com/ns/r2/aws"}
 var subPool = []string{"", "a", "a/b", "c"}
